@@ -496,8 +496,6 @@ class Result(JsonSerializable):
         --------
         create
         """
-        self.num_updates += 1
-
         # xxxxxxxxxxxxxxxxxxxxxxxxxxxxxxxxxxxxxxxxxxxxxxxxxxxxxxxxxxxxxxxxx
         # Python does not have a switch statement. We use dictionaries as
         # the equivalent of a switch statement.
@@ -580,6 +578,10 @@ class Result(JsonSerializable):
         # __default_update is called.
         possible_updates.get(self._update_type_code, __default_update)(value,
                                                                        total)
+
+        # Count the update only now: an invalid `value` / `total` raises an
+        # exception above and must leave the Result object unchanged
+        self.num_updates += 1
 
     def merge(self, other: "Result") -> None:
         """
